@@ -1329,7 +1329,8 @@ def structure_maps_together(chk, c, rule):
     # the layout keys: constant keys stored into the result under the sequence / choice branch
     layout = set()
     for n in own_nodes(ps.node):
-        if isinstance(n, ast.If) and pat.membership(n.test) and {'sequence', 'choice'} <= set(pat.membership(n.test)[1]):
+        mt = pat.membership(pat.inline_locals(n.test, ps.node)) if isinstance(n, ast.If) else None
+        if mt and {'sequence', 'choice'} <= set(mt[1]):
             for x in ast.walk(ast.Module(body=n.body, type_ignores=[])):
                 if isinstance(x, ast.Subscript) and isinstance(x.ctx, ast.Store) and isinstance(x.slice, ast.Constant) and \
                         isinstance(x.value, ast.Name) and isinstance(x.slice.value, str):
